@@ -123,6 +123,17 @@ def r02c(model: Model, rr: RuleResult):
             rr.ok("_migrate_to_defs is taken when the reused element belongs to another colour glyph")
         else:
             rr.bad(fi, mig_calls[0], "reuse across glyphs is not forced through <defs>", construct=f"_migrate_to_defs under {facts[-2:]}")
+        # second reason: the target carries any paint attribute at all (a <use> can neither override nor unset what its target declares)
+        tests = [e for e, pol in guard_facts(cfg, cfg.node_for(mig_calls[0])) if isinstance(e, ast.BoolOp) and isinstance(e.op, ast.Or)]
+        disj = [v for t in tests for v in t.values]
+        bare = [v for v in disj if isinstance(v, ast.Call) and callee_tail(v) == "_attrib_apply_paint_uses" and len(v.args) == 1 and norm(v.args[0]) == "reused_el"]
+        narrowed = [v for v in disj if any(isinstance(c, ast.Call) and callee_tail(c) == "_attrib_apply_paint_uses" for c in ast.walk(v)) and v not in bare]
+        if bare and not narrowed:
+            rr.ok("_migrate_to_defs is also taken whenever the reused element has any attribute _apply_paint may set")
+        else:
+            rr.bad(fi, mig_calls[0], f"the 'target has paint attributes' reason for moving the target to <defs> is narrowed to {[short(v, 80) for v in narrowed] or 'nothing'}: a later "
+                   f"copy that sets none of the target's attributes (a plain black copy of a yellow box, an opaque copy of a 30% shadow) inherits them, since <use> cannot unset them",
+                   construct="_add_glyph: _migrate_to_defs condition on target attributes narrowed")
 
 
 @RULES.rule("C02", "R02d", "glyph ids used in documents come from the re-numbered mapping; one group list drives numbering and emission", floor=7)
